@@ -8,7 +8,7 @@
 (* untilDateTime>> with date tuples <<y, m, d, minutes, suffix>>.  The same *)
 (* judgement binds the Python reference implementation (ZoneSpecifier, hw   *)
 (* = -1: its pool accounting is a different quantity).                      *)
-EXTENDS ExtProc
+EXTENDS ExtProc, FiniteSets
 
 Obs == JsonDeserialize(IOEnv.EXTPROC_OBS)
 TupleOf(d) == <<d.y, d.m, d.d, d.mi, d.s>>
@@ -25,5 +25,32 @@ Judge ==
                               impl |-> [filled |-> o.filled, nm |-> o.nm, hw |-> o.hw, rows |-> orows]]))
 \* the zone's step function over [Y0, Y1], for TzSem to judge; and what was compared
 Done == y = YLast => PrintT(ToJson([zone |-> Z.name, pieces |-> pieces, judged |-> Z.name \in DOMAIN Obs]))
+\* ---- wall-clock resolution bound to the implementation (ZonedDateTime::forComponents on an extended zone).
+\* WallObs[name][year] = windows [w0, w1, pieces] whose first wall minute lies in that local year; a piece
+\* <<day, sec, shift, off, err>> holds from its start to the next piece (run-length of every wall minute of the window).
+\* The model is evaluated at the start of every piece and at every wall time inside it where its value can change.
+WallObs == JsonDeserialize(IOEnv.EXTPROC_WALL)
+HasWall == Z.name \in DOMAIN WallObs /\ ToString(y) \in DOMAIN WallObs[Z.name]
+TabFor(yy) == IF yy = y THEN tab ELSE Table(Z, yy)
+YearOfWall(w) == Civil(w[1])[1]
+ModelAt(w) == Resolve(TabFor(YearOfWall(w)), w)
+PieceBad(ps, j, w1) ==
+  LET a == <<ps[j][1], ps[j][2]>>
+      b == IF j < Len(ps) THEN <<ps[j + 1][1], ps[j + 1][2]>> ELSE w1
+      ys == {YearOfWall(a), YearOfWall(AddS(b, -1))}
+      brk == UNION {WallBreaksOf(TabFor(yy)) \cup {<<Days(yy, 1, 1), 0>>} : yy \in ys}
+      pts == {a} \cup {c \in brk : Lt(a, c) /\ Lt(c, b)}
+      want == IF ps[j][5] # 0 THEN Err ELSE <<ps[j][3], ps[j][4]>>
+  IN {c \in pts : ModelAt(c) # want}
+WallJudge ==
+  HasWall =>
+    LET W == WallObs[Z.name][ToString(y)]
+        bad == {<<wi, j>> \in UNION {{<<wi, j>> : j \in 1..Len(W[wi].pieces)} : wi \in 1..Len(W)} :
+                  PieceBad(W[wi].pieces, j, <<W[wi].w1[1], W[wi].w1[2]>>) # {}}
+    IN bad = {} \/ LET b == CHOOSE x \in bad : TRUE
+                       c == CHOOSE x \in PieceBad(W[b[1]].pieces, b[2], <<W[b[1]].w1[1], W[b[1]].w1[2]>>) : TRUE
+                   IN PrintT(ToJson([wbad |-> Z.name, year |-> y, nbad |-> Cardinality(bad), at |-> c, model |-> ModelAt(c),
+                                     impl |-> W[b[1]].pieces[b[2]]]))
+WallCount == HasWall => PrintT(ToJson([wzone |-> Z.name, year |-> y, nwin |-> Len(WallObs[Z.name][ToString(y)])]))
 Hazards == tab.stale => PrintT(ToJson([stale |-> Z.name, year |-> y]))
 =============================================================================
